@@ -5,7 +5,8 @@
 //
 // Scheduler cases (reset kind=s):
 //
-//	burst p<id>=<kinds> ...   each named poster goroutine posts the closures (n<k> normal, x<k> panicking, h<k> parking)
+//	burst p<id>=<kinds> ...   each named poster goroutine posts the closures (n<k> normal, x<k> panicking, h<k> parking,
+//	                          d<k> posted from the bottom of a deep call chain and panicking at the bottom of one)
 //	start                     start the consumer (go Handler() / RunService.Start())
 //	release                   let a consumer parked in an `h` closure go on
 //	stop                      Sche.Stop() / RunService.Stop()
@@ -16,10 +17,13 @@
 //
 // Waterfall cases (reset kind=w, consumer running):
 //
-//	chain id=<c> via=sche|builder tasks=<mode><err><a|r><val>,...
+//	chain id=<c> via=sche|builder [bld=<k>] tasks=<mode><err><a|r><val>,...   (bld: the Builder object <k> of this case is
+//	                          used again: Next(the new tasks).Final().Do() on top of what it already holds)
 //	fire k=<pending index> via=go|main|timer|post
 //	wstop
-//	observation: t<c>.<i>[args]<g> / f<c>.<err>[args]<g> events in order, or "-"
+//	observation: t<c>.<i>[args]<g>#<chain instance> / f<c>.<err>[args]<g> events in order, or "-" (c = the chain op that
+//	                          made the task, i = its position in the builder / task list; the chain instance is the
+//	                          ordinal of the callback object the task was handed)
 package c15
 
 import (
@@ -37,6 +41,7 @@ import (
 	"testing"
 	"testing/synctest"
 	"time"
+	"unsafe"
 
 	"cell2verif/hx"
 
@@ -114,11 +119,54 @@ type env struct {
 	// task lists carved as adjacent windows out of one shared backing array (`chain ... mem=arena`): arena[off:off+n]
 	// has spare capacity that reaches into the following chains' tasks
 	arena []waterfall.Task
+	// Builder objects that are used for several chains (`chain ... bld=<k>`) and the number of tasks each holds
+	blds map[int]*bldState
+	// chain instances: the callback object handed to a task identifies the chain that runs it
+	cbToks map[uintptr]cbTok
 
 	// kind=m: several anonymous run services alive at once
 	svcs map[int]*msvc
 	mlog []execRec // executions on the services since the last op
 }
+
+type bldState struct {
+	b *waterfall.Builder
+	n int
+}
+
+type cbTok struct {
+	cb  waterfall.Callback // kept alive: its address must not be reused inside a case
+	ord int
+}
+
+// chainInst: ordinal (first sighting, from 1) of the callback object a task was handed - one per chain.
+func (e *env) chainInst(cb waterfall.Callback) int {
+	p := *(*uintptr)(unsafe.Pointer(&cb))
+	e.mu.Lock()
+	defer e.mu.Unlock()
+	if e.cbToks == nil {
+		e.cbToks = map[uintptr]cbTok{}
+	}
+	if t, ok := e.cbToks[p]; ok {
+		return t.ord
+	}
+	t := cbTok{cb, len(e.cbToks) + 1}
+	e.cbToks[p] = t
+	return t.ord
+}
+
+// deep runs f at the bottom of a call chain whose stack dump is well beyond 4 KB.
+//
+//go:noinline
+func deep(n int, f func()) {
+	if n == 0 {
+		f()
+		return
+	}
+	deep(n-1, f)
+}
+
+const deepFrames = 120
 
 type msvc struct {
 	id      int
@@ -217,6 +265,8 @@ func (e *env) closure(p, seq int, kind byte) func() {
 		switch kind {
 		case 'x':
 			panic("C15 harness: this closure panics")
+		case 'd':
+			deep(deepFrames, func() { panic("C15 harness: this closure panics at the bottom of a deep call chain") })
 		case 'h':
 			if gate != nil {
 				<-gate
@@ -284,10 +334,17 @@ func (p *poster) loop(e *env, ready chan struct{}) {
 						p.pan.Add(1)
 					}
 				}()
-				if t := e.s.Post(cb); t == nil {
-					p.nil_.Add(1)
+				post := func() {
+					if t := e.s.Post(cb); t == nil {
+						p.nil_.Add(1)
+					} else {
+						p.ok.Add(1)
+					}
+				}
+				if ks[i] == 'd' {
+					deep(deepFrames, post) // Post is reached through a long call chain
 				} else {
-					p.ok.Add(1)
+					post()
 				}
 			}()
 			p.blk.Store(0)
@@ -301,7 +358,7 @@ func expandKinds(spec string) (string, bool) {
 	i := 0
 	for i < len(spec) {
 		k := spec[i]
-		if k != 'n' && k != 'x' && k != 'h' {
+		if k != 'n' && k != 'x' && k != 'h' && k != 'd' {
 			return "", false
 		}
 		j := i + 1
@@ -465,7 +522,9 @@ func showArgs(args []interface{}) string {
 	return "[" + strings.Join(parts, ",") + "]"
 }
 
-func (e *env) event(s string) {
+func (e *env) event(s string) { e.eventSfx(s, "") }
+
+func (e *env) eventSfx(s, sfx string) {
 	g := goid()
 	e.mu.Lock()
 	l := "x"
@@ -474,7 +533,7 @@ func (e *env) event(s string) {
 	} else if g == e.mainGid {
 		l = "m"
 	}
-	e.events = append(e.events, s+l)
+	e.events = append(e.events, s+l+sfx)
 	e.mu.Unlock()
 }
 
@@ -489,20 +548,20 @@ func (e *env) takeEvents() string {
 	return s
 }
 
-func (e *env) buildTasks(id int, specs []taskSpec) ([]waterfall.Task, waterfall.FinalCallback) {
+func (e *env) buildTasks(id int, specs []taskSpec, base int) ([]waterfall.Task, waterfall.FinalCallback) {
 	tasks := make([]waterfall.Task, len(specs))
 	for i := range specs {
-		i, sp := i, specs[i]
+		i, sp := base+i, specs[i]
 		if sp.mode == 'x' {
 			continue // an unset step of a conditionally assembled chain: the entry stays nil
 		}
-		tasks[i] = func(cb waterfall.Callback, args ...interface{}) {
+		tasks[i-base] = func(cb waterfall.Callback, args ...interface{}) {
 			if cb == nil {
 				// the task was handed no usable callback: it cannot complete
 				e.event(fmt.Sprintf("t%d.%d%s!nilcb:", id, i, showArgs(args)))
 				return
 			}
-			e.event(fmt.Sprintf("t%d.%d%s", id, i, showArgs(args)))
+			e.eventSfx(fmt.Sprintf("t%d.%d%s", id, i, showArgs(args)), fmt.Sprintf("#%d", e.chainInst(cb)))
 			var res []interface{}
 			switch sp.rmode {
 			case 'a':
@@ -696,6 +755,11 @@ func exec(op string) string {
 		}
 		via, _ := hx.KV(ws, "via")
 		from, _ := hx.KV(ws, "from")
+		if _, ok := hx.KV(ws, "bld"); ok {
+			if mem, _ := hx.KV(ws, "mem"); via != "builder" || mem == "arena" {
+				return "bad-op"
+			}
+		}
 		if e.parked {
 			// keep the scenario free of the documented self-post deadlock and of a second blocked sender
 			room := e.wFill+e.wChain < sche.QueueSize
@@ -707,7 +771,24 @@ func exec(op string) string {
 				e.wBlocked = true
 			}
 		}
-		tasks, final := e.buildTasks(id, specs)
+		var bld *bldState
+		if _, ok := hx.KV(ws, "bld"); ok {
+			// one Builder object used for several chains: it keeps what it holds, the new tasks come on top
+			if e.blds == nil {
+				e.blds = map[int]*bldState{}
+			}
+			k := hx.KVInt(ws, "bld")
+			if e.blds[k] == nil {
+				e.blds[k] = &bldState{b: waterfall.NewBuilder(e.s)}
+			}
+			bld = e.blds[k]
+		}
+		base := 0
+		if bld != nil {
+			base = bld.n
+			bld.n += len(specs)
+		}
+		tasks, final := e.buildTasks(id, specs, base)
 		if mem, _ := hx.KV(ws, "mem"); mem == "arena" {
 			// the chain's task list is a window of a larger shared array: the next chain's tasks follow directly
 			if e.arena == nil {
@@ -721,6 +802,9 @@ func exec(op string) string {
 			return hx.Guard(func() string {
 				if via == "builder" {
 					b := waterfall.NewBuilder(e.s)
+					if bld != nil {
+						b = bld.b
+					}
 					for _, t := range tasks {
 						b.Next(t)
 					}
@@ -1224,6 +1308,9 @@ func kindsRun(r func(int) int, n int, panicPct, holdPct int) string {
 		x := r(100)
 		if x < panicPct {
 			k = 'x'
+			if x%3 == 0 {
+				k = 'd' // the panic comes from the bottom of a deep call chain (and so does the Post)
+			}
 		} else if x < panicPct+holdPct {
 			k = 'h'
 		}
@@ -1385,6 +1472,13 @@ func (g *gen) wfCase() {
 	h.Count("w.cons." + cons)
 	nChains := 1 + R.Intn(4)
 	pending := 0
+	bldUses := map[int]int{}
+	if R.Intn(3) == 0 {
+		// a Builder reused for every chain of the case
+		h.Count("w.builder.reuse-case")
+		nChains = 2 + R.Intn(3)
+		bldUses[0] = 1
+	}
 	for c := 1; c <= nChains; c++ {
 		n := R.Intn(7)
 		errPos := -1
@@ -1405,12 +1499,18 @@ func (g *gen) wfCase() {
 			h.Count(fmt.Sprintf("w.errpos.%d", errPos))
 		}
 		via := "sche"
-		if R.Intn(3) == 0 {
+		if R.Intn(3) == 0 || bldUses[0] > 0 && R.Intn(4) > 0 {
 			via = "builder"
 		}
 		if R.Intn(3) == 0 {
 			via += " mem=arena"
 			h.Count("w.mem.arena")
+		} else if via == "builder" && R.Intn(4) > 0 {
+			// one of two Builder objects of the case, used again while its earlier chains are queued / pending / done
+			k := 1 + R.Intn(2)
+			via += fmt.Sprintf(" bld=%d", k)
+			bldUses[k]++
+			h.Count(fmt.Sprintf("w.builder.use.%d", min(bldUses[k], 3)))
 		}
 		from := []string{"main", "go", "go", "cons"}[R.Intn(4)]
 		parkedHere := false
@@ -1582,6 +1682,28 @@ func (g *gen) sweep() {
 			}
 		}
 	}
+	// one Builder object used for several chains (Next.. Final Do, again Next.. Final Do): it keeps what it holds, so each
+	// chain runs the builder's tasks so far, and a chain that was started is not disturbed by what is built afterwards -
+	// whether it is pending on a task, queued behind a parked consumer, or done
+	for _, cons := range []string{"h", "r"} {
+		g.run("reset kind=w cons=" + cons)
+		g.run("chain id=1 via=builder bld=1 tasks=l0a1,s0a2")
+		g.run("chain id=2 via=builder bld=1 tasks=s0a3")
+		g.run("fire k=0 via=go")
+		g.run("fire k=1 via=main")
+		g.run("park")
+		g.run("chain id=3 via=builder bld=2 from=go tasks=s0a4,g0a5")
+		g.run("chain id=4 via=builder bld=2 from=go tasks=s1r6")
+		g.run("chain id=5 via=builder bld=1 from=main tasks=")
+		g.run("unpark")
+		g.run("fire k=2 via=timer")
+		g.run("chain id=6 via=builder bld=3 tasks=")
+		g.run("chain id=7 via=builder bld=3 from=cons tasks=g0a7,l0a8,s0a9")
+		g.run("chain id=8 via=builder bld=3 tasks=x0a1,s0a2")
+		g.run("fire k=3 via=post")
+		g.run("fire k=4 via=go")
+		g.h.Count("w.sweep.builder-reused")
+	}
 	// task lists that are adjacent windows of one backing array (spare capacity reaching into the next chain's tasks),
 	// started back to back with the consumer idle and parked, lengths 0..5
 	for _, cons := range []string{"h", "r"} {
@@ -1677,6 +1799,14 @@ func (g *gen) sweep() {
 	// fill levels: exactly at / around the capacity, single and multiple posters, both consumers
 	qs := sche.QueueSize
 	for _, cons := range []string{"h", "r"} {
+		// closures that panic at the bottom of a deep call chain, posted through a deep call chain - before and after Stop
+		g.run("reset kind=s cons=" + cons)
+		g.run("burst p0=n1d1n2")
+		g.run("start")
+		g.run("burst p1=d2n1 p0=n1")
+		g.run("stop")
+		g.run("burst p0=d1 p2=d2n1")
+		g.h.Count("s.sweep.deep")
 		for _, pre := range []int{0, qs - 1, qs, qs + 1, qs + 501} {
 			g.run("reset kind=s cons=" + cons)
 			if pre > 0 {
@@ -1715,7 +1845,7 @@ func postsPanic(op string) bool {
 	switch ws[0] {
 	case "burst":
 		for _, w := range ws[1:] {
-			if i := strings.IndexByte(w, '='); i >= 0 && strings.ContainsRune(w[i+1:], 'x') {
+			if i := strings.IndexByte(w, '='); i >= 0 && strings.ContainsAny(w[i+1:], "xd") {
 				return true
 			}
 		}
